@@ -47,135 +47,89 @@ example :
 
 /-! ## The cache key as a function of (host id, keyspace, statement text)
 
-FULL property (one cache entry per statement — what "an execution is never sent with an id belonging to a
+Property (one cache entry per statement — what "an execution is never sent with an id belonging to a
 different statement" needs from the key):
 
-    ∀ h₁ k₁ s₁ h₂ k₂ s₂, keyFor h₁ k₁ s₁ = keyFor h₂ k₂ s₂ → h₁ = h₂ ∧ k₁ = k₂ ∧ s₁ = s₂        (keyFor_injective)
+    ∀ h₁ k₁ s₁ h₂ k₂ s₂, keyFor h₁ k₁ s₁ = keyFor h₂ k₂ s₂ → h₁ = h₂ ∧ k₁ = k₂ ∧ s₁ = s₂
 
-The code that exists (`hostID + keyspace + statement`) does NOT satisfy it: `C14_cex_keyFor_collides` gives a
-colliding partner for EVERY triple with a non-empty keyspace (finding KF-C14-1). What holds is the `_partial`
-form below, whose hypothesis is exact (`C14_keyFor_injective_iff`): among triples with the same key, the
-triples are equal iff their host-id lengths and keyspace lengths agree. Nothing else is identified: not
-whitespace, not letter case, not a trailing semicolon, not unicode normalisation forms — the key is the
-byte string. -/
+`keyFor` is the code after the repair of KF-C14-1 (decimal byte lengths of host id and keyspace, each followed by
+'/', then the concatenation): the property holds for ALL byte strings, no excluded class. Nothing is identified:
+not whitespace, not letter case, not a trailing semicolon, not unicode normalisation forms, not a moved
+host|keyspace or keyspace|text border — the key determines the three byte strings. The plain concatenation the
+code used before (`keyForOld`) is kept only in the regression examples at the end of this section. -/
 
-/-- **Cache key, partial.** `keyFor` is injective on triples whose host ids have one length and whose
-    keyspaces have one length (any element type: bytes in the `keyfor` / `keypair` ops). -/
-theorem C14_keyFor_injective_partial {α : Type} (h₁ k₁ s₁ h₂ k₂ s₂ : List α)
-    (hh : h₁.length = h₂.length) (hk : k₁.length = k₂.length)
+/-- **The cache key is injective.** Two (host id, keyspace, statement text) triples with the same key are the
+    same triple — for all byte strings ('/' , digits, NULs inside host ids / keyspaces / texts included). -/
+theorem C14_keyFor_injective (h₁ k₁ s₁ h₂ k₂ s₂ : List UInt8)
     (he : keyFor h₁ k₁ s₁ = keyFor h₂ k₂ s₂) : h₁ = h₂ ∧ k₁ = k₂ ∧ s₁ = s₂ :=
-  C14Key.keyFor_inj_of_len h₁ k₁ s₁ h₂ k₂ s₂ hh hk he
+  C14Key.keyFor_inj h₁ k₁ s₁ h₂ k₂ s₂ he
 
-/-- the hypothesis of the partial theorem is exact: two triples with the same key are the same triple iff
-    their host-id lengths and keyspace lengths agree -/
-theorem C14_keyFor_injective_iff {α : Type} (h₁ k₁ s₁ h₂ k₂ s₂ : List α)
-    (he : keyFor h₁ k₁ s₁ = keyFor h₂ k₂ s₂) :
-    (h₁ = h₂ ∧ k₁ = k₂ ∧ s₁ = s₂) ↔ (h₁.length = h₂.length ∧ k₁.length = k₂.length) :=
-  ⟨fun ⟨a, b, _⟩ => ⟨by rw [a], by rw [b]⟩, fun ⟨a, b⟩ => C14_keyFor_injective_partial _ _ _ _ _ _ a b he⟩
-
-/-- **Counterexample family (KF-C14-1).** Every triple with a non-empty keyspace shares its key with a
-    DIFFERENT triple: the same host with the empty keyspace (a connection on which no USE was issued, e.g. the
-    control connection) and the statement text `keyspace ++ statement`; likewise across the host/keyspace
-    border. -/
-theorem C14_cex_keyFor_collides {α : Type} (h k s : List α) (hk : k ≠ []) :
-    keyFor h k s = keyFor h [] (k ++ s) ∧ (h, k, s) ≠ (h, [], k ++ s) ∧
-    keyFor h k s = keyFor (h ++ k) [] s ∧ (h, k, s) ≠ (h ++ k, [], s) :=
-  ⟨C14Key.keyFor_move_ks h k s, fun e => hk (by injection e with _ e; injection e),
-   C14Key.keyFor_move_host h k s, fun e => hk (by injection e with _ e; injection e)⟩
-
-/-- the older form (one keyspace, host ids of one length; kept for the texts that cite it) -/
-theorem C14_key_injective (h₁ h₂ ks s₁ s₂ : List Char) (hl : h₁.length = h₂.length)
+/-- the form the older texts cite (one keyspace): host and text are determined — now without any hypothesis on
+    the host-id lengths -/
+theorem C14_key_injective (h₁ h₂ ks s₁ s₂ : List UInt8)
     (he : keyFor h₁ ks s₁ = keyFor h₂ ks s₂) : h₁ = h₂ ∧ s₁ = s₂ :=
-  have ⟨a, _, c⟩ := C14_keyFor_injective_partial h₁ ks s₁ h₂ ks s₂ hl rfl he
+  have ⟨a, _, c⟩ := C14_keyFor_injective h₁ ks s₁ h₂ ks s₂ he
   ⟨a, c⟩
 
-/-- the kernel-checked concrete witness: ("h","a","bX") and ("h","ab","X") share a key -/
-theorem C14_cex_key_not_injective :
-    keyFor "h".toList "a".toList "bX".toList = keyFor "h".toList "ab".toList "X".toList ∧
-    ("a".toList, "bX".toList) ≠ ("ab".toList, "X".toList) := by decide
+/-- as a statement about triples: `keyOf` is injective -/
+theorem C14_keyOf_injective (t₁ t₂ : Triple) (he : keyOf t₁ = keyOf t₂) : t₁ = t₂ := by
+  obtain ⟨a, b, c⟩ := C14_keyFor_injective _ _ _ _ _ _ he
+  cases t₁; cases t₂; simp_all
 
-/-- **Inside one Session** (host ids of one length — UUID strings —, every connection on the empty keyspace
-    or on the configured keyspace K): two triples share a key iff they are the same triple, or one is
-    (h, "", K ++ s) and the other (h, K, s). So with host ids of one length the ONLY collisions are between a
-    connection without keyspace executing a text that begins with K and a connection on K executing the rest. -/
-theorem C14_keyFor_session {α : Type} (K h₁ k₁ s₁ h₂ k₂ s₂ : List α) (hh : h₁.length = h₂.length)
-    (m₁ : k₁ = [] ∨ k₁ = K) (m₂ : k₂ = [] ∨ k₂ = K) :
-    keyFor h₁ k₁ s₁ = keyFor h₂ k₂ s₂ ↔
-      ((h₁ = h₂ ∧ k₁ = k₂ ∧ s₁ = s₂) ∨ (h₁ = h₂ ∧ k₁ = [] ∧ k₂ = K ∧ s₁ = K ++ s₂) ∨
-       (h₁ = h₂ ∧ k₁ = K ∧ k₂ = [] ∧ s₂ = K ++ s₁)) := by
-  constructor
-  · intro he
-    rcases m₁ with rfl | rfl <;> rcases m₂ with rfl | rfl
-    · exact .inl (C14_keyFor_injective_partial _ _ _ _ _ _ hh rfl he)
-    · unfold keyFor at he
-      rw [List.append_assoc, List.append_assoc] at he
-      obtain ⟨a, b⟩ := List.append_inj he hh
-      exact .inr (.inl ⟨a, rfl, rfl, by simpa using b⟩)
-    · unfold keyFor at he
-      rw [List.append_assoc, List.append_assoc] at he
-      obtain ⟨a, b⟩ := List.append_inj he hh
-      exact .inr (.inr ⟨a, rfl, rfl, by simpa using b.symm⟩)
-    · exact .inl (C14_keyFor_injective_partial _ _ _ _ _ _ hh rfl he)
-  · rintro (⟨rfl, rfl, rfl⟩ | ⟨rfl, rfl, rfl, rfl⟩ | ⟨rfl, rfl, rfl, rfl⟩) <;> simp [keyFor]
-
-/-- **Op `keypair` is spec-backed.** Outside the excluded class (plain concatenations equal although the
-    host-id lengths or the keyspace lengths differ), the model of the code (`sameKey`: the two keys are equal
-    strings) answers exactly as the specification (`sameStmt`: the two triples are the same statement) — in
-    particular for ALL pairs whose host-id lengths and keyspace lengths agree. -/
-theorem C14_keypair_spec (t₁ t₂ : Triple) (h : excluded t₁ t₂ = false) : sameKey t₁ t₂ = sameStmt t₁ t₂ := by
-  unfold sameKey sameStmt keyOf
+/-- **Op `keypair` is spec-backed, for every pair.** The model of the code (`sameKey`: the two keys are equal
+    strings) answers exactly as the specification (`sameStmt`: the two triples are the same statement). -/
+theorem C14_keypair_spec (t₁ t₂ : Triple) : sameKey t₁ t₂ = sameStmt t₁ t₂ := by
+  unfold sameKey sameStmt
   by_cases e : t₁ = t₂
   · subst e; simp
-  · have : keyFor t₁.host t₁.ks t₁.text ≠ keyFor t₂.host t₂.ks t₂.text := by
-      intro he
-      have hl : lensAgree t₁ t₂ = true := by
-        simp only [excluded, Bool.and_eq_false_iff, Bool.not_eq_false', decide_eq_false_iff_not] at h
-        rcases h with h | h
-        · exact h
-        · exact absurd he h
-      simp only [lensAgree, Bool.and_eq_true, beq_iff_eq] at hl
-      obtain ⟨a, b, c⟩ := C14_keyFor_injective_partial _ _ _ _ _ _ hl.1 hl.2 he
-      apply e
-      cases t₁; cases t₂; simp_all
+  · have : keyOf t₁ ≠ keyOf t₂ := fun he => e (C14_keyOf_injective t₁ t₂ he)
     simp [e, this]
 
-/-- the excluded class is exactly where the code departs from the specification -/
-theorem C14_keypair_excluded_iff (t₁ t₂ : Triple) :
-    excluded t₁ t₂ = true ↔ (sameKey t₁ t₂ = true ∧ sameStmt t₁ t₂ = false) := by
-  constructor
-  · intro h
-    simp only [excluded, Bool.and_eq_true, Bool.not_eq_true', decide_eq_true_eq] at h
-    refine ⟨by simpa [sameKey, keyOf, keyFor] using h.2, ?_⟩
-    simp only [sameStmt, decide_eq_false_iff_not]
-    intro e; subst e
-    simp [lensAgree] at h
-  · intro ⟨h1, h2⟩
-    cases hx : excluded t₁ t₂ with
-    | true => rfl
-    | false => rw [C14_keypair_spec t₁ t₂ hx, h2] at h1; cases h1
-
-/-- … and outside that condition it does not (KF-C14-1; replayable: `keypairX 68 61 6258 68 6162 58`) -/
-theorem C14_cex_keypair :
-    sameKey ⟨[0x68], [0x61], [0x62, 0x58]⟩ ⟨[0x68], [0x61, 0x62], [0x58]⟩ = true ∧
-    sameStmt ⟨[0x68], [0x61], [0x62, 0x58]⟩ ⟨[0x68], [0x61, 0x62], [0x58]⟩ = false := by decide
-
 /-- non-vacuity of the near-collisions the harness generates: whitespace runs, letter case, a trailing
-    semicolon, NFC / NFD forms of 'é' and a NUL byte all give different keys -/
+    semicolon, NFC / NFD forms of 'é' and a NUL byte all give different keys; so do a moved keyspace|text border,
+    a moved host|keyspace border, and what a join with the separator '/' or with a digit would identify -/
 example :
     sameKey ⟨[1], [2], [0x61, 0x20, 0x62]⟩ ⟨[1], [2], [0x61, 0x20, 0x20, 0x62]⟩ = false ∧
     sameKey ⟨[1], [2], [0x61]⟩ ⟨[1], [2], [0x41]⟩ = false ∧
     sameKey ⟨[1], [2], [0x61]⟩ ⟨[1], [2], [0x61, 0x3b]⟩ = false ∧
     sameKey ⟨[1], [2], [0xc3, 0xa9]⟩ ⟨[1], [2], [0x65, 0xcc, 0x81]⟩ = false ∧
-    sameKey ⟨[1], [2], [0x61]⟩ ⟨[1], [2], [0x61, 0x00]⟩ = false := by decide
+    sameKey ⟨[1], [2], [0x61]⟩ ⟨[1], [2], [0x61, 0x00]⟩ = false ∧
+    sameKey ⟨[0x68], [0x61], [0x62, 0x58]⟩ ⟨[0x68], [0x61, 0x62], [0x58]⟩ = false ∧
+    sameKey ⟨[0x68], [0x61], [0x58]⟩ ⟨[0x68, 0x61], [], [0x58]⟩ = false ∧
+    sameKey ⟨[0x68], [0x61], [0x2f, 0x58]⟩ ⟨[0x68], [0x61, 0x2f], [0x58]⟩ = false ∧
+    sameKey ⟨[0x31], [0x30, 0x2f], [0x58]⟩ ⟨[0x31, 0x30], [0x2f], [0x58]⟩ = false ∧
+    sameKey ⟨[0x68], [0x61], [0x62, 0x58]⟩ ⟨[0x68], [0x61], [0x62, 0x58]⟩ = true := by decide
 
-/-- **The proposed fix is injective, at full strength.** `keyForFixed` (decimal lengths of host id and keyspace,
-    each followed by '/', then the concatenation — props/C14.fix-1.diff) maps different triples to different
-    keys, for ALL byte strings (separators, NULs and digits inside host ids / keyspaces / texts included). -/
-theorem C14_keyForFixed_injective (h₁ k₁ s₁ h₂ k₂ s₂ : List UInt8)
-    (he : keyForFixed h₁ k₁ s₁ = keyForFixed h₂ k₂ s₂) : h₁ = h₂ ∧ k₁ = k₂ ∧ s₁ = s₂ :=
-  C14Key.keyForFixed_inj h₁ k₁ s₁ h₂ k₂ s₂ he
+/-- the key text itself, byte for byte (op `keyfor`): "1/1/habX" and "1/2/habX";
+    a 36-byte host id gives the prefix "36/" -/
+example : keyFor [0x68] [0x61] [0x62, 0x58] = [0x31, 0x2f, 0x31, 0x2f, 0x68, 0x61, 0x62, 0x58] ∧
+    keyFor [0x68] [0x61, 0x62] [0x58] = [0x31, 0x2f, 0x32, 0x2f, 0x68, 0x61, 0x62, 0x58] ∧
+    (keyFor (List.replicate 36 0x30) [] []).take 5 = [0x33, 0x36, 0x2f, 0x30, 0x2f] := by decide
 
-example : keyForFixed [0x68] [0x61] [0x62, 0x58] ≠ keyForFixed [0x68] [0x61, 0x62] [0x58] := by decide
+/-! ### Regression examples about the OLD key (`keyForOld`: `hostID + keyspace + statement`, KF-C14-1, repaired)
+
+Not part of the model of the code that exists; they record why the plain concatenation had to go, and are the
+Lean side of the replay `keypair 68 61 6258 68 6162 58` (answered `same` by an unrepaired tree). -/
+
+/-- every triple with a non-empty keyspace shared its OLD key with a DIFFERENT triple -/
+example {α : Type} (h k s : List α) (hk : k ≠ []) :
+    keyForOld h k s = keyForOld h [] (k ++ s) ∧ (h, k, s) ≠ (h, [], k ++ s) ∧
+    keyForOld h k s = keyForOld (h ++ k) [] s ∧ (h, k, s) ≠ (h ++ k, [], s) :=
+  ⟨C14Key.keyForOld_move_ks h k s, fun e => hk (by injection e with _ e; injection e),
+   C14Key.keyForOld_move_host h k s, fun e => hk (by injection e with _ e; injection e)⟩
+
+/-- the concrete witness: ("h","a","bX") and ("h","ab","X") shared the OLD key and do not share the key -/
+example :
+    keyForOld [0x68] [0x61] [0x62, 0x58] = keyForOld [0x68] [0x61, 0x62] [(0x58 : UInt8)] ∧
+    keyFor [0x68] [0x61] [0x62, 0x58] ≠ keyFor [0x68] [0x61, 0x62] [0x58] := by decide
+
+/-- with the OLD key an executor of B = ("h","ab","X") was handed the flight published for A = ("h","a","bX")
+    (hit on flight 0, one PREPARE in the log) -/
+example :
+    (run (init 1000 : State (List UInt8)) [.lookup (keyForOld [0x68] [0x61] [0x62, 0x58]), .complete 0 (some [0xAA]),
+        .lookup (keyForOld [0x68] [0x61, 0x62] [0x58])]).map
+      (fun s => (s.cache.find (keyForOld [0x68] [0x61, 0x62] [0x58]), s.flights.length, outcome s 0)) =
+      some (some 0, 1, some (.ok [0xAA])) := by decide
 
 /-- **Single flight.** For every cache size and every schedule: the number of PREPAREs caused for a key
     equals the number of times its entry left the cache (capacity eviction, failure, UNPREPARED) plus
@@ -305,43 +259,35 @@ example :
 
 /-! ## Statement level: whose text was PREPAREd for the flight an executor is handed
 
-FULL property ("an execution is never sent with an id/metadata belonging to a different statement"), for every
-cache size and every schedule of lookups / completions / UNPREPARED answers over ARBITRARY triples:
+Property ("an execution is never sent with an id/metadata belonging to a different statement"), for every cache
+size and every schedule of lookups / completions / UNPREPARED answers over ARBITRARY triples:
 
-    trun (tinit cap) as = some x → x.flightOf t = some f → x.sent[f]? = some t                (id_belongs_stmt)
+    trun (tinit cap) as = some x → x.flightOf t = some f → x.sent[f]? = some t
 
 i.e. the flight that `execIfMissing` hands to an executor of (host, keyspace, text) t was published for, and its
-goroutine PREPAREd, exactly t. The code that exists violates it when two triples of the schedule collide under
-`keyFor` (`C14_cex_id_of_other_statement`, KF-C14-1). The `_partial` form takes key equality ⇒ statement identity
-from `C14_keypair_spec` / `C14_keyFor_injective_partial` instead of assuming it. -/
+goroutine PREPAREd, exactly t. Key equality ⇒ statement identity comes from `C14_keyOf_injective` (the repaired
+key), not from a hypothesis. -/
 
-/-- **Ids belong to the statement, partial.** In every reachable state, the flight cached under the key of t was
-    published by a lookup of a triple t' with the same KEY, and it is t' whose text was PREPAREd; t' = t unless
-    (t', t) is in the excluded class (plain concatenations equal although the host-id or keyspace lengths
-    differ) — in particular t' = t whenever host ids have one length and connections one keyspace. -/
-theorem C14_id_belongs_stmt_partial (cap : Int) (as : List TAction) (x : TState)
+/-- **Ids belong to the statement.** In every reachable state, for every triple t: the flight cached under the key
+    of t was published by a lookup of t itself, and it is t's text that the flight's goroutine PREPAREd. -/
+theorem C14_id_belongs_stmt (cap : Int) (as : List TAction) (x : TState)
     (h : trun (tinit cap) as = some x) (t : Triple) (f : Nat) (hf : x.flightOf t = some f) :
-    ∃ t', x.sent[f]? = some t' ∧ keyOf t' = keyOf t ∧ (excluded t' t = false → t' = t) := by
+    x.sent[f]? = some t := by
   have hI := C14Stmt.trun_inv as (tinit cap) x (C14Stmt.tinv_init cap) h
   have hr := C14Stmt.trun_run as (tinit cap) x h
   obtain ⟨_, hb, _, _⟩ := run_good (init cap) x.s _ (good_init cap) hr
   obtain ⟨fl, h1, h2, _⟩ := hb _ (find_some_mem x.s.cache (keyOf t) f hf)
   obtain ⟨t', h3, h4⟩ := hI.2 f fl h1
-  refine ⟨t', h3, h4.trans h2, ?_⟩
-  intro hx
-  have hk : sameKey t' t = true := by simp [sameKey, h4.trans h2]
-  rw [C14_keypair_spec t' t hx] at hk
-  simpa [sameStmt] using hk
+  rw [h3, C14_keyOf_injective t' t (h4.trans h2)]
 
-/-- **Counterexample (KF-C14-1), kernel-checked.** A = ("h","a","bX") is executed and PREPAREd (id 0xAA); then an
-    executor of B = ("h","ab","X") — a different statement — is handed A's flight: it will EXECUTE with the id the
-    server issued for A's text, and B is never PREPAREd (one PREPARE in the log). -/
-theorem C14_cex_id_of_other_statement :
+/-- the pair that collided before the repair: A = ("h","a","bX") is executed and PREPAREd (id 0xAA); an executor
+    of B = ("h","ab","X") now MISSES, publishes its own flight 1 and its own text is PREPAREd -/
+example :
     let A : Triple := ⟨[0x68], [0x61], [0x62, 0x58]⟩
     let B : Triple := ⟨[0x68], [0x61, 0x62], [0x58]⟩
     (trun (tinit 1000) [.lookup A, .complete 0 (some [0xAA]), .lookup B]).map
-      (fun x => (x.flightOf B, x.sent, outcome x.s 0, prepares x.s.log (keyOf B))) =
-      some (some 0, [A], some (.ok [0xAA]), 1) ∧ A ≠ B := by decide
+      (fun x => (x.flightOf A, x.flightOf B, x.sent, outcome x.s 1, prepares x.s.log (keyOf B))) =
+      some (some 0, some 1, [A, B], some .inflight, 1) := by decide
 
 /-- non-vacuity: near-colliding texts (one space / two spaces inside a literal) get their own flights and texts -/
 example :
